@@ -209,8 +209,15 @@ def _fallback_slots(f, call, cfg):
     flow = C.flow_of(f)
     for r in C.calls_to(f.node, "get_instruction"):
         rs = cfg.node_of(r)
-        if r is call or U(r.func.value) != recv or not (isinstance(rs, ast.Assign) and U(rs.targets[0]) == var):
+        if r is call or U(r.func.value) != recv or not isinstance(rs, ast.Assign):
             continue
+        if U(rs.targets[0]) != var:
+            # `other = <retries> if var is None else var`: the hit is carried over, the retries fill the miss
+            v = rs.value
+            carried = isinstance(v, ast.IfExp) and (
+                (U(v.test) == var + " is None" and U(v.orelse) == var) or (U(v.test) in (var, var + " is not None") and U(v.body) == var))
+            if not carried:
+                continue
         if not cfg.dominates(st, rs) or len(r.args) != 2:
             continue
         # a retry that follows a later primary look-up into the same variable belongs to that one
@@ -219,15 +226,18 @@ def _fallback_slots(f, call, cfg):
                  and cfg.dominates(cfg.node_of(p2), rs)]
         if later:
             continue
-        facts = {(U(e), p) for e, p in C.facts_at(rs)} - base
+        # (the guards of the retry CALL: conditional expressions around it count like nested ifs)
+        facts = {(U(e), p) for e, p in C.facts_at(r)} - base
         pos = {t for t, p in facts if p}
         neg = {t for t, p in facts if not p}
         miss = (var + " is None") in pos or var in neg or (var + " is not None") in neg
         if not miss:
             continue
         arg0 = U(flow.subst(r.args[0]))
+        other_isa = lambda t, mine: any(C.canon_eq("self._isa", "'%s'" % o) in t for o in ("x86", "aarch64") if o != mine)
         rest = lambda *known: [t for t, p in facts if not (p and t in known) and t not in (var + " is None",)
-                               and not (not p and t in (var, var + " is not None"))]
+                               and not (not p and t in (var, var + " is not None"))
+                               and not (not p and other_isa(t, "x86" if "x86" in known[0] else "aarch64"))]
         if C.canon_eq("self._isa", "'x86'") in pos:
             suffix = "%s[-1] in self.GAS_SUFFIXES" % mn
             out["x86"] = {"suffix_test": suffix in pos, "slice": arg0 == "%s[:-1]" % mn,
